@@ -5,7 +5,7 @@ import GcArena.Model.Conv
   stdin: one query per line; stdout: exactly one answer line per input line.
 
     case <target> <chain> <placement> <schedule> <phase> <age>
-        target:    sized | array:<n> | slice:<n> | swh:<n> | str:<n> | dyn | zst:<align> | zc:<align>:<maxalign>
+        target:    sized | array:<n> | slice:<n> | swh:<n> | swa:<n> | str:<n> | dyn | zst:<align> | zc:<align>:<maxalign>
         chain:     `-` or step names joined by `,`:
                    copy erase erase_kind cast from_thin as_thin as_fat ptr ptr_kind thin_ptr unsize
                    downgrade upgrade stash
@@ -59,6 +59,9 @@ def parseTarget (s : String) : Option Target :=
   | ["array", n] => n.toNat?.map .array
   | ["slice", n] => n.toNat?.map .slice
   | ["swh", n] => n.toNat?.map .swh
+  -- `swa`: the same target with an over-aligned (align 32) header type on the implementation side;
+  -- alignment is not observable in the conversion model (it is C17's subject), so it is `.swh` here
+  | ["swa", n] => n.toNat?.map .swh
   | ["str", n] => n.toNat?.map .str
   | ["zst", a] => a.toNat?.map .zst
   | ["zc", a, m] =>
